@@ -1,6 +1,6 @@
 (* JsonProofs.v — lemmas and theorems about the JSON-CAS models (JsonDoc.v, Json.v). *)
 From Coq Require Import Ascii ZifyBool.
-From Cassis Require Import Base Heap Schema Canon Reach JsonDoc Json.
+From Cassis Require Import Base Heap Schema Canon Reach ReachProofs JsonDoc Json.
 From Cassis Require Offsets OffsetsProofs.
 Open Scope Z_scope.
 
@@ -814,4 +814,584 @@ Proof.
                      = Ok (map (fun fd => (fd_xname fd, CW fd)) (ti_feats ti))).
       { apply mapM_ok_map. intros fd Hin. rewrite (Hcanon fd Hin); [reflexivity|]. cbn [andb]. discriminate. }
       rewrite Hmap. cbn [bind fst]. eexists. split; reflexivity.
+Qed.
+
+(* ---- sorted member lists ---- *)
+
+Lemma zinsert_sorted x l : Sorted Z.le l -> Sorted Z.le (zinsert x l).
+Proof.
+  induction l as [|y r IH]; intros H; cbn [zinsert]; [repeat constructor|].
+  destruct (x <=? y) eqn:E.
+  - constructor; [exact H|constructor; lia].
+  - inversion H as [|? ? Hr Hy]; subst. constructor; [apply IH; exact Hr|].
+    destruct r as [|z r']; cbn [zinsert]; [constructor; lia|].
+    destruct (x <=? z); constructor; try lia. inversion Hy; subst. assumption.
+Qed.
+Lemma zsort_sorted l : Sorted Z.le (zsort l).
+Proof. induction l as [|x r IH]; cbn [zsort fold_right]; [constructor|apply zinsert_sorted; exact IH]. Qed.
+Lemma zsort_of_sorted l : Sorted Z.le l -> zsort l = l.
+Proof.
+  induction l as [|x r IH]; intros H; [reflexivity|]. inversion H as [|? ? Hr Hx]; subst.
+  cbn [zsort fold_right]. fold (zsort r). rewrite (IH Hr). destruct r as [|y r']; [reflexivity|].
+  inversion Hx; subst. cbn [zinsert]. destruct (x <=? y) eqn:E; [reflexivity|lia].
+Qed.
+Lemma zsort_idem l : zsort (zsort l) = zsort l.
+Proof. apply zsort_of_sorted. apply zsort_sorted. Qed.
+
+Lemma mapM_jint l : mapM jint (map JInt l) = Ok l.
+Proof. induction l as [|x r IH]; [reflexivity|]. cbn [map mapM jint bind]. rewrite IH. reflexivity. Qed.
+
+(* ---- one sofa ---- *)
+
+(* look a closed key up in a member list whose keys are closed *)
+Ltac lk := repeat (cbn [alookup app opt_member];
+                   match goal with
+                   | |- context [String.eqb ?a ?b] =>
+                       let r := eval vm_compute in (String.eqb a b) in
+                       (change (String.eqb a b) with r); cbv iota
+                   end).
+
+Lemma den_sofa_written L c sf ms views ids :
+  lex_ok L -> (match s_text sf with Some t => text_okb t = true | None => True end) ->
+  enc_sofa L c sf = Ok ms ->
+  alookup (s_name sf) views = Some (JObj [(K_SOFA, JInt (s_xid sf)); (K_MEMBERS, JArr (map JInt (zsort ids)))]) ->
+  exists arr, (match s_arr sf with None => Ok None | Some o => ref_id c (VRef o) end) = Ok arr /\
+  den_sofa L views (s_xid sf, ms) =
+    Ok (mkCsofa (s_xid sf) (s_num sf) (s_name sf) (s_text sf) (s_mime sf) (s_uri sf) arr (zsort ids)).
+Proof.
+  intros (Htxt & _) Htok Henc Hview. unfold enc_sofa in Henc.
+  assert (Harr : exists arr ja, (match s_arr sf with None => Ok None | Some o => ref_id c (VRef o) end) = Ok arr /\
+            (forall o, s_arr sf = Some o -> ja = match arr with Some i => JInt i | None => JNull end) /\
+            ms = [(K_ID, JInt (s_xid sf)); (K_TYPE, JStr T_SOFA); ("sofaNum", JInt (s_num sf)); ("sofaID", JStr (s_name sf))]
+                 ++ opt_member "mimeType" JStr (s_mime sf)
+                 ++ (match s_arr sf with Some _ => [(refkey "sofaArray", ja)] | None => [] end)
+                 ++ opt_member "sofaString" (fun t => JStr (txt_enc L t)) (s_text sf) ++ opt_member "sofaURI" JStr (s_uri sf)).
+  { destruct (s_arr sf) as [o|].
+    - unfold ref_json in Henc. destruct (ref_id c (VRef o)) as [oi| |] eqn:Er; cbn [bind] in Henc; try discriminate.
+      inversion Henc. exists oi, (match oi with Some i => JInt i | None => JNull end). repeat split.
+    - cbn [bind] in Henc. inversion Henc. exists None, JNull. split; [reflexivity|split; [discriminate|reflexivity]]. }
+  destruct Harr as (arr & ja & Ha & Hja & ->). exists arr. split; [exact Ha|].
+  unfold den_sofa. cbn [snd fst]. unfold K_ID, K_TYPE, refkey.
+  destruct (s_mime sf) as [mime|]; destruct (s_arr sf) as [o|]; destruct (s_text sf) as [tx|]; destruct (s_uri sf) as [uri|];
+    lk; cbn [opt_jstr bind]; try rewrite (Htxt tx Htok); cbn [bind]; rewrite Hview; unfold K_MEMBERS, K_SOFA, jget; lk;
+    rewrite mapM_jint; cbn [bind]; rewrite zsort_idem;
+    try (rewrite (Hja o eq_refl); destruct arr; reflexivity);
+    try (inversion Ha; reflexivity).
+Qed.
+
+(* ================================================================================================================ *)
+(* the views loop: what it writes can be read off the CAS the save leaves behind                                     *)
+(* ================================================================================================================ *)
+
+(* c' has the objects of c with the same types and slots, and keeps every id c has *)
+Definition ext (c c' : cas) : Prop :=
+  c_views c' = c_views c /\
+  forall o f, hget (c_heap c) o = Some f ->
+    exists f', hget (c_heap c') o = Some f' /\ o_type f' = o_type f /\ o_slots f' = o_slots f /\
+               (forall i, o_id f = Some i -> o_id f' = Some i).
+Lemma ext_refl c : ext c c.
+Proof. split; [reflexivity|]. intros o f H. exists f. repeat split; auto. Qed.
+Lemma ext_trans a b c : ext a b -> ext b c -> ext a c.
+Proof.
+  intros [V1 H1] [V2 H2]. split; [congruence|]. intros o f Hf.
+  destruct (H1 o f Hf) as (f1 & G1 & T1 & S1 & I1). destruct (H2 o f1 G1) as (f2 & G2 & T2 & S2 & I2).
+  exists f2. repeat split; try congruence. intros i Hi. apply I2. apply I1. exact Hi.
+Qed.
+Lemma find_sofa_ext c c' n : ext c c' -> find_sofa c' n = find_sofa c n.
+Proof. intros [V _]. unfold find_sofa. rewrite V. reflexivity. Qed.
+Lemma ref_id_ext c c' v i : ext c c' -> ref_id c v = Ok (Some i) -> ref_id c' v = Ok (Some i).
+Proof.
+  intros E. destruct v; cbn [ref_id]; try discriminate.
+  - destruct (hget (c_heap c) o) as [f|] eqn:Ef; [|discriminate]. intros [= Hi].
+    destruct (proj2 E o f Ef) as (f' & G & _ & _ & I). rewrite G, (I i Hi). reflexivity.
+  - rewrite (find_sofa_ext c c' n E). auto.
+Qed.
+Lemma member_ids_ext c c' ms ids : ext c c' -> member_ids (c_heap c) ms = Ok ids -> member_ids (c_heap c') ms = Ok ids.
+Proof.
+  intros E. unfold member_ids. revert ids. induction ms as [|o r IH]; cbn [mapM]; intros ids H; [exact H|].
+  destruct (hget (c_heap c) o) as [f|] eqn:Ef; cbn [bind] in H; [|discriminate].
+  destruct (o_id f) as [i|] eqn:Ei; cbn [bind] in H; [|discriminate].
+  destruct (mapM _ r) as [is| |] eqn:Er in H; cbn [bind] in H; try discriminate. inversion H; subst ids.
+  destruct (proj2 E o f Ef) as (f' & G & _ & _ & I). rewrite G, (I i Ei). cbn [bind]. rewrite (IH is Er). reflexivity.
+Qed.
+
+(* what the loop is expected to have written for one view, read off a CAS *)
+Definition arr_out (L : lex) (s : schema) (c : cas) (v : cview) : res (list json) :=
+  match s_arr (v_sofa v) with
+  | None => Ok []
+  | Some o => match hget (c_heap c) o with
+              | None => Err EAttribute
+              | Some f => do m <- enc_fs L s c f ;; Ok [JObj m] end
+  end.
+Definition view_out (L : lex) (s : schema) (c : cas) (v : cview) : res (list json * (string * json)) :=
+  do jv <- enc_view (c_heap c) v ;;
+  do arrs <- arr_out L s c v ;;
+  do ms <- enc_sofa L c (v_sofa v) ;;
+  Ok (arrs ++ [JObj ms], jv).
+
+(* the byte array of a sofa is written from its own type, id and slots only *)
+Lemma enc_fs_bytes L s c c' f f' : o_type f = T_BYTE_ARRAY -> o_type f' = o_type f -> o_slots f' = o_slots f -> o_id f' = o_id f ->
+  enc_fs L s c' f' = enc_fs L s c f.
+Proof.
+  intros Ht Ht' Hs Hi. unfold enc_fs, id_json, slot. rewrite Ht', Hs, Hi, Ht.
+  change (is_array_name T_BYTE_ARRAY) with true. cbv iota.
+  destruct (nonempty_list _); [|reflexivity]. unfold enc_elements. rewrite String.eqb_refl. reflexivity.
+Qed.
+
+Definition arrays_bytes (c : cas) (vs : list cview) : Prop :=
+  forall v o f, In v vs -> s_arr (v_sofa v) = Some o -> hget (c_heap c) o = Some f -> o_type f = T_BYTE_ARRAY.
+
+Lemma step_view_err L s e v : step_view L s (Err e) v = Err e.
+Proof. reflexivity. Qed.
+Lemma step_view_oof L s v : step_view L s OutOfFuel v = OutOfFuel.
+Proof. reflexivity. Qed.
+Lemma fold_step_err L s vs e : fold_left (step_view L s) vs (Err e) = Err e.
+Proof. induction vs; [reflexivity|exact IHvs]. Qed.
+Lemma fold_step_oof L s vs : fold_left (step_view L s) vs OutOfFuel = OutOfFuel.
+Proof. induction vs; [reflexivity|exact IHvs]. Qed.
+
+Lemma step_view_spec L s c fss views v c1 fss1 views1 :
+  step_view L s (Ok (c, fss, views)) v = Ok (c1, fss1, views1) ->
+  ext c c1 /\
+  forall cF, ext c1 cF -> arrays_bytes cF [v] ->
+    exists out, view_out L s cF v = Ok out /\ fss1 = fss ++ fst out /\ views1 = views ++ [snd out].
+Proof.
+  unfold step_view. cbn [bind].
+  destruct (enc_view (c_heap c) v) as [jv| |] eqn:Ev; cbn [bind]; try discriminate.
+  destruct (s_arr (v_sofa v)) as [o|] eqn:Ea.
+  - destruct (hget (c_heap c) o) as [f|] eqn:Ef; cbn [bind]; [|discriminate].
+    set (c' := match o_id f with Some _ => c | None => mkCas (c_views c) (hset (c_heap c) o (set_id f (c_next_id c))) (c_next_id c + 1) end).
+    set (f1 := match o_id f with Some _ => f | None => set_id f (c_next_id c) end).
+    destruct (enc_fs L s c' f1) as [m| |] eqn:Em; cbn [bind]; try discriminate.
+    destruct (enc_sofa L c' (v_sofa v)) as [ms| |] eqn:Es; cbn [bind]; try discriminate.
+    intros [= <- <- <-].
+    assert (Hext : ext c c').
+    { unfold c'. destruct (o_id f) eqn:Ei; [apply ext_refl|]. split; [reflexivity|]. cbn [c_heap]. intros o' g Hg.
+      destruct (N.eq_dec o' o) as [->|Hne].
+      - rewrite Ef in Hg. inversion Hg; subst g. exists (set_id f (c_next_id c)). rewrite (hget_hset_same _ _ _ _ Ef).
+        repeat split; auto. intros i Hi. congruence.
+      - rewrite (hget_hset_other _ _ _ _ Hne). exists g. repeat split; auto. }
+    assert (Hf1 : hget (c_heap c') o = Some f1 /\ exists i, o_id f1 = Some i).
+    { unfold c', f1. destruct (o_id f) eqn:Ei; [split; [exact Ef|eauto]|]. cbn [c_heap]. rewrite (hget_hset_same _ _ _ _ Ef).
+      split; [reflexivity|]. cbn [set_id o_id]. eauto. }
+    destruct Hf1 as [Hg1 (i1 & Hi1)].
+    split; [exact Hext|]. intros cF HF Hb.
+    destruct (proj2 HF o f1 Hg1) as (fF & GF & TF & SF & IF).
+    assert (HtF : o_type fF = T_BYTE_ARRAY) by (apply (Hb v o fF); [left; reflexivity|exact Ea|exact GF]).
+    unfold view_out, arr_out. unfold enc_view in *.
+    destruct (member_ids (c_heap c) (v_members v)) as [ids| |] eqn:Emi; cbn [bind] in Ev; try discriminate.
+    rewrite (member_ids_ext c cF (v_members v) ids (ext_trans _ _ _ Hext HF) Emi). cbn [bind]. rewrite Ea, GF.
+    rewrite (enc_fs_bytes L s c' cF f1 fF); [|congruence|exact TF|exact SF|rewrite Hi1; apply IF; exact Hi1].
+    rewrite Em. cbn [bind].
+    assert (EsF : enc_sofa L cF (v_sofa v) = Ok ms).
+    { unfold enc_sofa in *. rewrite Ea in *. unfold ref_json in *.
+      assert (Hr : ref_id c' (VRef o) = Ok (Some i1)) by (cbn [ref_id]; rewrite Hg1, Hi1; reflexivity).
+      rewrite Hr in Es. rewrite (ref_id_ext c' cF (VRef o) i1 HF Hr). exact Es. }
+    rewrite EsF. cbn [bind]. inversion Ev; subst jv. eexists. split; [reflexivity|]. cbn [fst snd]. split; reflexivity.
+  - cbn [bind]. destruct (enc_sofa L c (v_sofa v)) as [ms| |] eqn:Es; cbn [bind]; try discriminate.
+    intros [= <- <- <-]. split; [apply ext_refl|]. intros cF HF _.
+    unfold view_out, arr_out. unfold enc_view in *.
+    destruct (member_ids (c_heap c) (v_members v)) as [ids| |] eqn:Emi; cbn [bind] in Ev; try discriminate.
+    rewrite (member_ids_ext c cF (v_members v) ids HF Emi). cbn [bind]. rewrite Ea. cbn [bind].
+    assert (EsF : enc_sofa L cF (v_sofa v) = Ok ms) by (unfold enc_sofa in *; rewrite Ea in *; exact Es).
+    rewrite EsF. cbn [bind]. inversion Ev; subst jv. eexists. split; [reflexivity|]. cbn [fst snd app]. split; reflexivity.
+Qed.
+
+Lemma loop_spec L s : forall vs c fss views cN fssN viewsN,
+  fold_left (step_view L s) vs (Ok (c, fss, views)) = Ok (cN, fssN, viewsN) ->
+  ext c cN /\
+  forall cF, ext cN cF -> arrays_bytes cF vs ->
+    exists outs, mapM (view_out L s cF) vs = Ok outs /\ fssN = fss ++ List.concat (map fst outs) /\ viewsN = views ++ map snd outs.
+Proof.
+  induction vs as [|v r IH]; intros c fss views cN fssN viewsN H.
+  - cbn [fold_left] in H. inversion H; subst. split; [apply ext_refl|]. intros cF _ _. exists []. cbn [mapM map List.concat].
+    rewrite !app_nil_r. auto.
+  - cbn [fold_left] in H. destruct (step_view L s (Ok (c, fss, views)) v) as [[[c1 fss1] views1]|e|] eqn:E1.
+    + destruct (step_view_spec L s c fss views v c1 fss1 views1 E1) as [X1 S1].
+      destruct (IH c1 fss1 views1 cN fssN viewsN H) as [X2 S2]. split; [eapply ext_trans; eassumption|].
+      intros cF HF Hb.
+      destruct (S1 cF (ext_trans _ _ _ X2 HF)) as (out & Ho & Hf1 & Hv1).
+      { intros v' o f [Hv|[]] Ha Hg. apply (Hb v' o f); [left; exact Hv|exact Ha|exact Hg]. }
+      destruct (S2 cF HF) as (outs & Hos & Hf2 & Hv2).
+      { intros v' o f Hin Ha Hg. apply (Hb v' o f); [right; exact Hin|exact Ha|exact Hg]. }
+      exists (out :: outs). cbn [mapM]. rewrite Ho, Hos. cbn [bind map List.concat]. split; [reflexivity|].
+      subst. rewrite <- !app_assoc. split; reflexivity.
+    + rewrite fold_step_err in H. discriminate.
+    + rewrite fold_step_oof in H. discriminate.
+Qed.
+
+(* the traversal only assigns ids *)
+Lemma find_all_ext s c w : find_all_fs true s c = Ok w -> ext c (cas_after c w).
+Proof.
+  intros H. change (find_all_fs true s c) with (find_all_from true s c (member_seeds c)) in H.
+  destruct (find_all_shape _ _ _ _ _ H) as [Hs _]. destruct (ids_assigned _ _ _ _ _ H) as (_ & Hk & _).
+  split; [reflexivity|]. cbn [cas_after c_heap]. intros o f Hf.
+  destruct (shape_some (c_heap c) (w_heap w) o f (eq_sym Hs) Hf) as (f' & G & Sh). apply shape_eq_parts in Sh. destruct Sh as [T S].
+  exists f'. split; [exact G|]. split; [exact T|]. split; [exact S|]. intros i Hi.
+  destruct (Hk o f i Hf Hi) as (f2 & G2 & I2). rewrite G in G2. inversion G2; subst f2. exact I2.
+Qed.
+
+Lemma insert_id_In x y l : In x (insert_id y l) <-> x = y \/ In x l.
+Proof.
+  induction l as [|z r IH]; cbn [insert_id In]; [intuition|].
+  destruct (fst y <=? fst z); cbn [In]; [intuition|]. rewrite IH. intuition.
+Qed.
+Lemma sort_ids_In x l : In x (sort_ids l) <-> In x l.
+Proof.
+  induction l as [|y r IH]; cbn [sort_ids fold_right In]; [tauto|]. fold (sort_ids r). rewrite insert_id_In, IH. intuition.
+Qed.
+Lemma list_eqb_pair a b : list_eqb pair_eqb a b = true -> a = b.
+Proof.
+  revert b. induction a as [|[i o] r IH]; intros [|[j p] r']; cbn [list_eqb]; try discriminate; [reflexivity|].
+  unfold pair_eqb. cbn [fst snd]. rewrite !andb_true_iff. intros [[A B] C]. apply Z.eqb_eq in A. apply N.eqb_eq in B.
+  subst. f_equal. apply IH. exact C.
+Qed.
+
+(* ================================================================================================================ *)
+(* assembling the document                                                                                           *)
+(* ================================================================================================================ *)
+
+Definition canon_item (s : schema) (c : cas) (o : oid) : res (xid * cfs) :=
+  match hget (c_heap c) o with
+  | Some f => match o_id f with Some i => do cf <- canon_fs s c f ;; Ok (i, cf) | None => Err EValue end
+  | None => Err EAttribute
+  end.
+Definition entry_json (e : entry) : json := JObj (snd e).
+Definition id_first (e : entry) : Prop := alookup K_ID (snd e) = Some (JInt (fst e)).
+Definition not_sofa (e : entry) : bool := negb (is_sofa_entry e).
+Definition vjson (v : cview) (ids : list Z) : string * json :=
+  (s_name (v_sofa v), JObj [(K_SOFA, JInt (s_xid (v_sofa v))); (K_MEMBERS, JArr (map JInt (zsort ids)))]).
+
+Lemma enc_fs_head L s c f m : enc_fs L s c f = Ok m ->
+  exists rest, m = (K_ID, id_json f) :: (K_TYPE, JStr (o_type f)) :: rest.
+Proof.
+  unfold enc_fs. destruct (is_array_name (o_type f)).
+  - destruct (nonempty_list (slot f "elements")).
+    + destruct (enc_elements L c (o_type f) l); cbn [bind]; try discriminate. intros [= <-]. eexists. reflexivity.
+    + intros [= <-]. eexists. reflexivity.
+  - destruct (sch_find s (o_type f)); [|discriminate]. destruct (mapM _ _); cbn [bind]; try discriminate.
+    intros [= <-]. eexists. reflexivity.
+Qed.
+
+(* a written structure: its entry carries its id, is not a sofa entry, and denotes its canonical content *)
+Lemma written_object L s c o f i m :
+  lex_ok L -> hget (c_heap c) o = Some f -> o_id f = Some i -> obj_okb s c f = true -> enc_fs L s c f = Ok m ->
+  id_first (i, m) /\ is_sofa_entry (i, m) = false /\
+  forall stab, stab_ok c stab -> exists r, den_fs L s stab (i, m) = Ok r /\ canon_item s c o = Ok r.
+Proof.
+  intros HL Hg Hi Hok Hm. destruct (enc_fs_head L s c f m Hm) as (rest & ->).
+  split; [unfold id_first, id_json; cbn [snd fst alookup]; rewrite Hi, String.eqb_refl; reflexivity|]. split.
+  - unfold is_sofa_entry, e_type. cbn [snd alookup].
+    change (String.eqb K_TYPE K_ID) with false. cbv iota. rewrite String.eqb_refl.
+    unfold obj_okb in Hok. apply andb_true_iff in Hok. destruct Hok as [Ht _]. unfold tname_okb in Ht.
+    apply andb_true_iff in Ht. destruct Ht as [Ht _]. apply negb_true_iff in Ht. exact Ht.
+  - intros stab Hst. destruct (den_fs_written L s c f i _ stab HL Hi Hok Hst Hm) as (cf & Hc & Hd).
+    exists (i, cf). split; [exact Hd|]. unfold canon_item. rewrite Hg, Hi, Hc. reflexivity.
+Qed.
+
+Lemma enc_sofa_head L c sf ms : enc_sofa L c sf = Ok ms ->
+  id_first (s_xid sf, ms) /\ is_sofa_entry (s_xid sf, ms) = true.
+Proof.
+  unfold enc_sofa. destruct (match s_arr sf with None => Ok [] | Some o => _ end) as [arr| |]; cbn [bind]; try discriminate.
+  intros [= <-]. split; reflexivity.
+Qed.
+
+Lemma view_part L s c v out :
+  lex_ok L -> view_out L s c v = Ok out ->
+  (match s_text (v_sofa v) with Some t => text_okb t = true | None => True end) ->
+  (forall o, s_arr (v_sofa v) = Some o -> exists f i, hget (c_heap c) o = Some f /\ obj_okb s c f = true /\ o_id f = Some i) ->
+  exists E ids cs,
+    fst out = map entry_json E /\ Forall id_first E /\ snd out = vjson v ids /\
+    canon_sofa c v = Ok cs /\ cs_id cs = s_xid (v_sofa v) /\ cs_text cs = s_text (v_sofa v) /\
+    (forall VJ, alookup (s_name (v_sofa v)) VJ = Some (snd (vjson v ids)) ->
+       mapM (den_sofa L VJ) (filter is_sofa_entry E) = Ok [cs]) /\
+    (forall stab, stab_ok c stab ->
+       exists rs, mapM (den_fs L s stab) (filter not_sofa E) = Ok rs /\
+                  mapM (canon_item s c) (match s_arr (v_sofa v) with Some o => [o] | None => [] end) = Ok rs).
+Proof.
+  intros HL Hout Htx Harr. unfold view_out in Hout.
+  destruct (enc_view (c_heap c) v) as [jv| |] eqn:Ev; cbn [bind] in Hout; try discriminate.
+  destruct (arr_out L s c v) as [arrs| |] eqn:Ea; cbn [bind] in Hout; try discriminate.
+  destruct (enc_sofa L c (v_sofa v)) as [ms| |] eqn:Es; cbn [bind] in Hout; try discriminate.
+  inversion Hout; subst out. clear Hout. cbn [fst snd].
+  unfold enc_view in Ev. destruct (member_ids (c_heap c) (v_members v)) as [ids| |] eqn:Emi; cbn [bind] in Ev; try discriminate.
+  inversion Ev; subst jv. clear Ev.
+  destruct (enc_sofa_head L c (v_sofa v) ms Es) as [Hsid Hss].
+  assert (Hcs : forall VJ, alookup (s_name (v_sofa v)) VJ = Some (snd (vjson v ids)) ->
+            exists arr, (match s_arr (v_sofa v) with None => Ok None | Some o => ref_id c (VRef o) end) = Ok arr /\
+            den_sofa L VJ (s_xid (v_sofa v), ms) =
+              Ok (mkCsofa (s_xid (v_sofa v)) (s_num (v_sofa v)) (s_name (v_sofa v)) (s_text (v_sofa v)) (s_mime (v_sofa v))
+                          (s_uri (v_sofa v)) arr (zsort ids))).
+  { intros VJ HVJ. exact (den_sofa_written L c (v_sofa v) ms VJ ids HL Htx Es HVJ). }
+  destruct (Hcs [vjson v ids]) as (arr & Harr_id & _).
+  { unfold vjson. cbn [alookup fst snd]. rewrite String.eqb_refl. reflexivity. }
+  set (cs := mkCsofa (s_xid (v_sofa v)) (s_num (v_sofa v)) (s_name (v_sofa v)) (s_text (v_sofa v)) (s_mime (v_sofa v))
+                     (s_uri (v_sofa v)) arr (zsort ids)).
+  assert (Hcanon : canon_sofa c v = Ok cs).
+  { unfold canon_sofa. rewrite Harr_id. cbn [bind]. rewrite Emi. reflexivity. }
+  unfold arr_out in Ea. destruct (s_arr (v_sofa v)) as [o|] eqn:Eo.
+  - destruct (Harr o eq_refl) as (f & i & Hg & Hok & Hi). rewrite Hg in Ea.
+    destruct (enc_fs L s c f) as [m| |] eqn:Em; cbn [bind] in Ea; try discriminate. inversion Ea; subst arrs.
+    destruct (written_object L s c o f i m HL Hg Hi Hok Em) as (Hid & Hns & Hden).
+    exists [(i, m); (s_xid (v_sofa v), ms)], ids, cs.
+    split; [reflexivity|]. split; [repeat constructor; assumption|]. split; [reflexivity|]. split; [exact Hcanon|].
+    split; [reflexivity|]. split; [reflexivity|]. split.
+    + intros VJ HVJ. cbn [filter]. rewrite Hns, Hss. cbn [mapM]. destruct (Hcs VJ HVJ) as (arr' & Ha' & Hd').
+      rewrite Harr_id in Ha'. inversion Ha'; subst arr'. rewrite Hd'. reflexivity.
+    + intros stab Hst. destruct (Hden stab Hst) as (r & Hd & Hc). exists [r]. unfold not_sofa. cbn [filter]. rewrite Hns, Hss. cbn [negb mapM].
+      rewrite Hd, Hc. split; reflexivity.
+  - inversion Ea; subst arrs. exists [(s_xid (v_sofa v), ms)], ids, cs.
+    split; [reflexivity|]. split; [repeat constructor; assumption|]. split; [reflexivity|]. split; [exact Hcanon|].
+    split; [reflexivity|]. split; [reflexivity|]. split.
+    + intros VJ HVJ. cbn [filter]. rewrite Hss. cbn [mapM]. destruct (Hcs VJ HVJ) as (arr' & Ha' & Hd').
+      rewrite Harr_id in Ha'. inversion Ha'; subst arr'. rewrite Hd'. reflexivity.
+    + intros stab _. exists []. unfold not_sofa. cbn [filter]. rewrite Hss. split; reflexivity.
+Qed.
+
+Definition view_okP (s : schema) (c : cas) (v : cview) : Prop :=
+  (match s_text (v_sofa v) with Some t => text_okb t = true | None => True end) /\
+  (forall o, s_arr (v_sofa v) = Some o -> exists f i, hget (c_heap c) o = Some f /\ obj_okb s c f = true /\ o_id f = Some i).
+Definition arr_of (v : cview) : list oid := match s_arr (v_sofa v) with Some o => [o] | None => [] end.
+
+Lemma views_part L s c : lex_ok L -> forall vs outs, mapM (view_out L s c) vs = Ok outs ->
+  (forall v, In v vs -> view_okP s c v) ->
+  exists E sofas,
+    List.concat (map fst outs) = map entry_json E /\ Forall id_first E /\
+    mapM (canon_sofa c) vs = Ok sofas /\
+    map (fun cs => (cs_id cs, cs_text cs)) sofas = map (fun v => (s_xid (v_sofa v), s_text (v_sofa v))) vs /\
+    map fst (map snd outs) = map (fun v => s_name (v_sofa v)) vs /\
+    (forall VJ, Forall2 (fun v out => alookup (s_name (v_sofa v)) VJ = Some (snd (snd out))) vs outs ->
+       mapM (den_sofa L VJ) (filter is_sofa_entry E) = Ok sofas) /\
+    (forall stab, stab_ok c stab ->
+       exists rs, mapM (den_fs L s stab) (filter not_sofa E) = Ok rs /\ mapM (canon_item s c) (flat_map arr_of vs) = Ok rs).
+Proof.
+  intros HL. induction vs as [|v r IH]; intros outs Hm Hok.
+  - cbn [mapM] in Hm. inversion Hm; subst outs. exists [], []. cbn. repeat split; auto. intros stab _. exists []. split; reflexivity.
+  - cbn [mapM] in Hm. destruct (view_out L s c v) as [out| |] eqn:Eo; cbn [bind] in Hm; try discriminate.
+    destruct (mapM (view_out L s c) r) as [outs'| |] eqn:Er; cbn [bind] in Hm; try discriminate. inversion Hm; subst outs. clear Hm.
+    destruct (Hok v (or_introl eq_refl)) as [Htx Harr].
+    destruct (view_part L s c v out HL Eo Htx Harr) as (E1 & ids & cs & A1 & A2 & A3 & A4 & A5 & A6 & A7 & A8).
+    destruct (IH outs' eq_refl (fun x Hx => Hok x (or_intror Hx))) as (E2 & sofas & B1 & B2 & B3 & B4 & B5 & B6 & B7).
+    exists (E1 ++ E2), (cs :: sofas). cbn [map List.concat mapM flat_map].
+    split; [rewrite A1, B1, map_app; reflexivity|]. split; [apply Forall_app; split; assumption|].
+    split; [rewrite A4, B3; reflexivity|]. split; [cbn [map]; rewrite A5, A6, B4; reflexivity|].
+    split; [rewrite A3, B5; reflexivity|]. split.
+    + intros VJ F2. inversion F2 as [|? ? ? ? Hv Hr]; subst. rewrite filter_app, mapM_app.
+      rewrite A3 in Hv. rewrite (A7 VJ Hv), (B6 VJ Hr). reflexivity.
+    + intros stab Hst. destruct (A8 stab Hst) as (rs1 & C1 & C2). destruct (B7 stab Hst) as (rs2 & D1 & D2).
+      exists (rs1 ++ rs2). rewrite filter_app, !mapM_app.
+      change (match s_arr (v_sofa v) with Some o => [o] | None => [] end) with (arr_of v) in C2.
+      rewrite C1, C2, D1, D2. split; reflexivity.
+Qed.
+
+Definition found_okP (s : schema) (c : cas) (io : xid * oid) : Prop :=
+  exists f, hget (c_heap c) (snd io) = Some f /\ obj_okb s c f = true /\ o_id f = Some (fst io).
+
+Lemma found_part L s c : lex_ok L -> forall found fss,
+  mapM (fun io => do f <- fs_at c io ;; do m <- enc_fs L s c f ;; Ok (JObj m)) found = Ok fss ->
+  (forall io, In io found -> found_okP s c io) ->
+  exists E, fss = map entry_json E /\ Forall id_first E /\ filter is_sofa_entry E = [] /\ filter not_sofa E = E /\
+    forall stab, stab_ok c stab ->
+      exists rs, mapM (den_fs L s stab) E = Ok rs /\ mapM (canon_item s c) (map snd found) = Ok rs.
+Proof.
+  intros HL. induction found as [|io r IH]; intros fss Hm Hok.
+  - cbn [mapM] in Hm. inversion Hm. exists []. repeat split; auto. intros stab _. exists []. split; reflexivity.
+  - cbn [mapM] in Hm. destruct (Hok io (or_introl eq_refl)) as (f & Hg & Hobj & Hi).
+    unfold fs_at in Hm at 1. rewrite Hg in Hm. cbn [bind] in Hm.
+    destruct (enc_fs L s c f) as [m| |] eqn:Em; cbn [bind] in Hm; try discriminate.
+    destruct (mapM _ r) as [fss'| |] eqn:Er in Hm; cbn [bind] in Hm; try discriminate. inversion Hm; subst fss. clear Hm.
+    destruct (IH fss' Er (fun x Hx => Hok x (or_intror Hx))) as (E & B1 & B2 & B3 & B4 & B5).
+    destruct (written_object L s c (snd io) f (fst io) m HL Hg Hi Hobj Em) as (Hid & Hns & Hden).
+    exists ((fst io, m) :: E). cbn [map filter]. unfold not_sofa at 1. rewrite Hns. cbn [negb].
+    split; [rewrite B1; reflexivity|]. split; [constructor; assumption|]. split; [exact B3|]. split; [rewrite B4; reflexivity|].
+    intros stab Hst. destruct (Hden stab Hst) as (r0 & D1 & D2). destruct (B5 stab Hst) as (rs & F1 & F2).
+    exists (r0 :: rs). cbn [mapM]. rewrite D1, D2, F1, F2. split; reflexivity.
+Qed.
+
+Lemma entries_written E : Forall id_first E ->
+  mapM (fun j => match j with
+                 | JObj m => match alookup K_ID m with Some (JInt i) => Ok (i, m) | _ => Err EValue end
+                 | _ => Err EAttribute end) (map entry_json E) = Ok E.
+Proof.
+  induction 1 as [|[i m] r Hid _ IH]; [reflexivity|]. cbn [map mapM entry_json snd]. unfold id_first in Hid. cbn [fst snd] in Hid.
+  rewrite Hid. cbn [bind]. rewrite IH. reflexivity.
+Qed.
+
+Lemma alookup_nodup {V} k (x : V) l : NoDup (map fst l) -> In (k, x) l -> alookup k l = Some x.
+Proof.
+  induction l as [|[k' x'] r IH]; intros Hnd Hin; [destruct Hin|]. cbn [map fst] in Hnd. inversion Hnd as [|? ? Hni Hnd']; subst.
+  cbn [alookup]. destruct Hin as [E|Hin].
+  - inversion E; subst. rewrite String.eqb_refl. reflexivity.
+  - destruct (String.eqb k k') eqn:E; [|apply IH; assumption]. apply String.eqb_eq in E. subst k'.
+    exfalso. apply Hni. change k with (fst (k, x)). apply in_map. exact Hin.
+Qed.
+Lemma zlookup_nodup {V} k (x : V) l : NoDup (map fst l) -> In (k, x) l -> zlookup k l = Some x.
+Proof.
+  induction l as [|[k' x'] r IH]; intros Hnd Hin; [destruct Hin|]. cbn [map fst] in Hnd. inversion Hnd as [|? ? Hni Hnd']; subst.
+  cbn [zlookup]. destruct Hin as [E|Hin].
+  - inversion E; subst. rewrite Z.eqb_refl. reflexivity.
+  - destruct (Z.eqb k k') eqn:E; [|apply IH; assumption]. apply Z.eqb_eq in E. subst k'.
+    exfalso. apply Hni. change k with (fst (k, x)). apply in_map. exact Hin.
+Qed.
+Lemma znodup_NoDup l : znodup l = true -> NoDup l.
+Proof.
+  induction l as [|x r IH]; cbn [znodup]; intros H; [constructor|]. apply andb_true_iff in H. destruct H as [A B].
+  constructor; [|apply IH; exact B]. intros Hin. apply negb_true_iff in A.
+  assert (existsb (Z.eqb x) r = true) by (apply existsb_exists; exists x; split; [exact Hin|apply Z.eqb_refl]). congruence.
+Qed.
+
+Lemma ser_types_shape s mode used types : ser_types s mode used = Ok types -> types = [] \/ exists j, types = [(K_TYPES, j)].
+Proof.
+  unfold ser_types. destruct mode.
+  - destruct (types_to_include s MFull used); cbn [bind]; try discriminate. destruct (mapM _ _); cbn [bind]; try discriminate.
+    intros [= <-]. right. eexists. reflexivity.
+  - destruct (types_to_include s MMinimal used); cbn [bind]; try discriminate. destruct (mapM _ _); cbn [bind]; try discriminate.
+    intros [= <-]. right. eexists. reflexivity.
+  - intros [= <-]. left. reflexivity.
+Qed.
+
+Lemma opt_eqb_some a i : opt_eqb Z.eqb a (Some i) = true -> a = Some i.
+Proof. destruct a as [x|]; cbn [opt_eqb]; [|discriminate]. intros H. apply Z.eqb_eq in H. congruence. Qed.
+
+(* C02/C04: read with the declarative semantics of the format, the document the writer produces describes exactly the
+   canonical content of the CAS it leaves behind — sofa data, view membership, every structure under its id, every
+   value, references as ids (so shared structures are shared), offsets in code points. *)
+Theorem denote_save_json L s mode c d c2 :
+  lex_ok L -> save_json L s mode c = Ok (d, c2) -> wf_jsonb s c2 = true -> stableb L s c = true ->
+  denote_json L s d = canon_json s c2.
+Proof.
+  intros HL Hsave Hwf Hstab.
+  unfold save_json in Hsave.
+  destruct (save_found L s c) as [[[[c1 sofa_fs] views] w]| |] eqn:Esf; cbn [bind] in Hsave; try discriminate.
+  destruct (mapM (fun io => do f <- fs_at (cas_after c1 w) io ;; do m <- enc_fs L s (cas_after c1 w) f ;; Ok (JObj m)) (sort_ids (w_all w)))
+    as [fss| |] eqn:Efss; cbn [bind] in Hsave; try discriminate.
+  destruct (mapM (fun io => do f <- fs_at (cas_after c1 w) io ;; Ok (o_type f)) (sort_ids (w_all w))) as [used| |] eqn:Eused;
+    cbn [bind] in Hsave; try discriminate.
+  destruct (ser_types s mode used) as [types| |] eqn:Ety; cbn [bind] in Hsave; try discriminate.
+  inversion Hsave; subst d c2. clear Hsave.
+  (* the premises *)
+  unfold stableb in Hstab. rewrite Esf in Hstab.
+  destruct (find_all_fs true s (cas_after c1 w)) as [w'| |] eqn:Ew'; try discriminate. apply list_eqb_pair in Hstab.
+  unfold wf_jsonb in Hwf. rewrite Ew' in Hwf. rewrite !andb_true_iff in Hwf. destruct Hwf as ((((Hn & Hi) & Ht) & Hf) & Ha).
+  rewrite forallb_forall in Ht, Hf, Ha.
+  (* the loop and the traversal *)
+  unfold save_found in Esf.
+  destruct (fold_left (step_view L s) (c_views c) (Ok (c, [], []))) as [[[c1' sfs] vws]| |] eqn:Efold; cbn [bind] in Esf; try discriminate.
+  destruct (find_all_fs true s c1') as [w0| |] eqn:Ew; cbn [bind] in Esf; try discriminate. inversion Esf; subst c1' sfs vws w0. clear Esf.
+  destruct (loop_spec L s _ _ _ _ _ _ _ Efold) as [X1 Hloop].
+  pose proof (find_all_ext s c1 w Ew) as X2.
+  set (c2 := cas_after c1 w) in *.
+  assert (Hviews : c_views c2 = c_views c) by (rewrite (proj1 X2); exact (proj1 X1)).
+  assert (Harrs : forall v o, In v (c_views c) -> s_arr (v_sofa v) = Some o ->
+            exists f i, hget (c_heap c2) o = Some f /\ (String.eqb (o_type f) T_BYTE_ARRAY = true /\ obj_okb s c2 f = true) /\ o_id f = Some i).
+  { intros v o Hv Ho. assert (Hin : In o (sofa_arrays c2)).
+    { unfold sofa_arrays. rewrite Hviews. apply in_flat_map. exists v. split; [exact Hv|]. rewrite Ho. left. reflexivity. }
+    specialize (Ha o Hin). destruct (hget (c_heap c2) o) as [f|] eqn:G; [|discriminate]. rewrite !andb_true_iff in Ha.
+    destruct Ha as [[A B] C]. destruct (o_id f) as [i|] eqn:I; [|discriminate]. exists f, i. split; [reflexivity|]. split; [split; assumption|exact I]. }
+  destruct (Hloop c2 X2) as (outs & Houts & Hsfs & Hvws).
+  { intros v o f Hv Ho Hg. destruct (Harrs v o Hv Ho) as (f' & i & G & [T _] & _). rewrite Hg in G. inversion G; subst f'.
+    apply String.eqb_eq in T. exact T. }
+  cbn [app] in Hsfs, Hvws. subst sofa_fs views.
+  destruct (views_part L s c2 HL (c_views c) outs Houts) as (Ev & sofas & V1 & V2 & V3 & V4 & V5 & V6 & V7).
+  { intros v Hv. split.
+    - assert (Hs : In (v_sofa v) (map v_sofa (c_views c2))) by (rewrite Hviews; apply in_map; exact Hv). pose proof (Ht _ Hs) as Hq. destruct (s_text (v_sofa v)); [exact Hq|exact I].
+    - intros o Ho. destruct (Harrs v o Hv Ho) as (f & i & G & [_ K] & I). exists f, i. auto. }
+  destruct (found_part L s c2 HL (sort_ids (w_all w)) fss Efss) as (Ef & F1 & F2 & F3 & F4 & F5).
+  { intros io Hio0. assert (Hio : In io (sort_ids (w_all w'))) by (rewrite Hstab; exact Hio0). apply (proj1 (sort_ids_In _ _)) in Hio. specialize (Hf io Hio).
+    destruct (hget (c_heap c2) (@snd Z oid io)) as [f|] eqn:G; [|discriminate Hf]. apply andb_true_iff in Hf. destruct Hf as [A B].
+    exists f. split; [exact G|]. split; [exact A|apply opt_eqb_some; exact B]. }
+  (* the document *)
+  assert (Hfs : jget K_FS (JObj (types ++ [(K_FS, JArr (List.concat (map fst outs) ++ fss)); (K_VIEWS, JObj (map snd outs))]))
+                = Some (JArr (map entry_json (Ev ++ Ef)))).
+  { rewrite map_app, <- V1, <- F1. destruct (ser_types_shape _ _ _ _ Ety) as [->|(j & ->)]; reflexivity. }
+  assert (Hvj : doc_views (JObj (types ++ [(K_FS, JArr (List.concat (map fst outs) ++ fss)); (K_VIEWS, JObj (map snd outs))]))
+                = Ok (map snd outs)).
+  { destruct (ser_types_shape _ _ _ _ Ety) as [->|(j & ->)]; reflexivity. }
+  unfold denote_json, fs_entries. rewrite Hfs, (entries_written (Ev ++ Ef) (proj2 (Forall_app _ _ _) (conj V2 F2))). cbn [bind].
+  rewrite Hvj. cbn [bind].
+  (* sofas *)
+  assert (Hnames : NoDup (map fst (map snd outs))).
+  { rewrite V5. apply snodup_NoDup. rewrite <- Hviews. rewrite map_map in Hn. exact Hn. }
+  assert (HVJ : Forall2 (fun v out => alookup (s_name (v_sofa v)) (map snd outs) = Some (snd (snd out))) (c_views c) outs).
+  { assert (G : forall vs os, map fst (map snd os) = map (fun v => s_name (v_sofa v)) vs -> (forall o, In o os -> In o outs) ->
+                  Forall2 (fun v out => alookup (s_name (v_sofa v)) (map snd outs) = Some (snd (snd out))) vs os).
+    { induction vs as [|v r IHr]; intros [|o os] Hm Hsub; cbn [map] in Hm; try discriminate; constructor.
+      - injection Hm as Hk _. rewrite <- Hk. apply alookup_nodup; [exact Hnames|].
+        rewrite <- surjective_pairing. apply in_map. apply Hsub. left. reflexivity.
+      - apply IHr; [injection Hm as _ Hm; exact Hm|]. intros x Hx. apply Hsub. right. exact Hx. }
+    apply G; [exact V5|auto]. }
+  rewrite filter_app, F3, app_nil_r, (V6 (map snd outs) HVJ). cbn [bind].
+  (* the sofa table *)
+  assert (Hstabok : stab_ok c2 (map (fun cs => (cs_id cs, cs_text cs)) sofas)).
+  { rewrite V4. intros n sf Hfs'. unfold find_sofa in Hfs'. rewrite Hviews in Hfs'.
+    destruct (find _ (c_views c)) as [v|] eqn:Efi; [|discriminate]. cbn [option_map] in Hfs'. inversion Hfs'; subst sf.
+    apply find_some in Efi. destruct Efi as [Hv _]. apply zlookup_nodup.
+    - rewrite map_map. cbn [fst]. apply znodup_NoDup. rewrite <- Hviews. rewrite map_map in Hi. exact Hi.
+    - apply (in_map (fun v => (s_xid (v_sofa v), s_text (v_sofa v)))) in Hv. exact Hv. }
+  destruct (V7 _ Hstabok) as (rs1 & R1 & R2). destruct (F5 _ Hstabok) as (rs2 & R3 & R4).
+  change (fun e : entry => negb (is_sofa_entry e)) with not_sofa.
+  rewrite filter_app, F4, mapM_app, R1, R3. cbn [bind].
+  (* the canonical side *)
+  unfold canon_json. rewrite Ew'. cbn [bind]. rewrite Hstab. unfold canon_of.
+  change (fun o : oid => match hget (c_heap c2) o with
+                         | Some f => match o_id f with Some i => do cf <- canon_fs s c2 f ;; Ok (i, cf) | None => Err EValue end
+                         | None => Err EAttribute end) with (canon_item s c2).
+  assert (Hsa : sofa_arrays c2 = flat_map arr_of (c_views c)) by (unfold sofa_arrays; rewrite Hviews; reflexivity).
+  rewrite Hsa, mapM_app, R2, R4. cbn [bind]. rewrite Hviews, V3. reflexivity.
+Qed.
+
+(* ================================================================================================================ *)
+(* corollaries                                                                                                       *)
+(* ================================================================================================================ *)
+
+(* collections are references in JSON: whoever holds the object a denotes the id i, and i files exactly a *)
+Theorem shared_stays_shared s c w a fa i :
+  find_all_fs true s c = Ok w -> In (i, a) (w_all w) -> hget (c_heap c) a = Some fa -> o_id fa = Some i ->
+  cv_json c (VRef a) = Ok (CRef i) /\ (forall o, In (i, o) (w_all w) -> o = a) /\ (forall j, In (j, a) (w_all w) -> j = i).
+Proof.
+  intros H Hin Hg Hi. change (find_all_fs true s c) with (find_all_from true s c (member_seeds c)) in H.
+  destruct (find_all_each_once _ _ _ _ _ H) as [Nid Noid].
+  split; [cbn [cv_json cv_atom ref_id]; rewrite Hg, Hi; reflexivity|]. split.
+  - intros o Ho. exact (NoDup_fst_inj (w_all w) i o a Nid Ho Hin).
+  - intros j Hj. unfold returned in Noid.
+    assert (G : forall (l : list (xid * oid)) j i a, NoDup (map snd l) -> In (j, a) l -> In (i, a) l -> j = i).
+    { induction l as [|[k b] r IH]; [intros j0 i0 a0 _ []|]. intros j0 i0 a0 Hn [E1|H1] [E2|H2]; cbn [map snd] in Hn; inversion Hn as [|? ? Hni Hn']; subst.
+      - congruence.
+      - inversion E1; subst. exfalso. apply Hni. change a0 with (snd (i0, a0)). apply in_map. exact H2.
+      - inversion E2; subst. exfalso. apply Hni. change a0 with (snd (j0, a0)). apply in_map. exact H1.
+      - eapply IH; eassumption. }
+    exact (G _ _ _ _ Noid Hj Hin).
+Qed.
+
+(* re-serialising: two documents the writer produces from CASes with the same canonical content (the original after its
+   save and the loaded one after its save) have the same denotation *)
+Theorem json_resave_same_denotation L s m1 m2 c1 d1 c1' c2 d2 c2' :
+  lex_ok L ->
+  save_json L s m1 c1 = Ok (d1, c1') -> wf_jsonb s c1' = true -> stableb L s c1 = true ->
+  save_json L s m2 c2 = Ok (d2, c2') -> wf_jsonb s c2' = true -> stableb L s c2 = true ->
+  canon_json s c1' = canon_json s c2' -> denote_json L s d1 = denote_json L s d2.
+Proof.
+  intros HL S1 W1 T1 S2 W2 T2 E.
+  rewrite (denote_save_json L s m1 c1 d1 c1' HL S1 W1 T1), (denote_save_json L s m2 c2 d2 c2' HL S2 W2 T2). exact E.
+Qed.
+
+(* round trip through the reader model, for documents on which the reader agrees with the denotation *)
+Theorem json_roundtrip_given_reader L s mode c d c' :
+  lex_ok L -> save_json L s mode c = Ok (d, c') -> wf_jsonb s c' = true -> stableb L s c = true ->
+  load_json L s d = denote_json L s d -> load_json L s d = canon_json s c'.
+Proof. intros HL S W T E. rewrite E. exact (denote_save_json L s mode c d c' HL S W T). Qed.
+
+(* before c9a01e4: an extended DocumentAnnotation that the document uses was not declared *)
+Definition s_docann_ext : schema :=
+  mkTi T_DOCANN [T_DOCANN; T_ANNOTATION; T_ANNOTATION_BASE; T_TOP]
+       [mkFd "language" "language" T_STRING None false; mkFd "extra" "extra" T_STRING None false; fd_begin; fd_end; fd_sofa]
+  :: filter (fun ti => negb (String.eqb (ti_name ti) T_DOCANN)) builtin_schema.
+Theorem old_docann_skip_refuted :
+  exists s used decls ti, schema_okb s = true /\ ser_types_old s MFull used = Ok [(K_TYPES, JObj decls)] /\
+    In T_DOCANN used /\ sch_find s T_DOCANN = Some ti /\ is_predefined T_DOCANN = false /\ docann_default s ti = false /\
+    alookup T_DOCANN decls = None.
+Proof.
+  exists s_docann_ext, [T_DOCANN], [], (mkTi T_DOCANN [T_DOCANN; T_ANNOTATION; T_ANNOTATION_BASE; T_TOP]
+       [mkFd "language" "language" T_STRING None false; mkFd "extra" "extra" T_STRING None false; fd_begin; fd_end; fd_sofa]).
+  vm_compute. repeat split; auto.
 Qed.
